@@ -20,8 +20,8 @@ from harness.common.paths import REPO_SRC
 
 ID = "C15"
 DRIVER = "drv_c15"
-LEAN_TARGETS = ["PharmpyProofs.C15.Properties", "drv_c15"]
-PROPERTIES = ["PharmpyProofs/C15/Properties.lean"]
+LEAN_TARGETS = ["PharmpyProofs.C15.Properties", "PharmpyProofs.C15.PathProperties", "drv_c15"]
+PROPERTIES = ["PharmpyProofs/C15/Properties.lean", "PharmpyProofs/C15/PathProperties.lean"]
 LEAN_SOURCES = ["PharmpyModel/C15/*.lean", "PharmpyProofs/C15/*.lean", "Drivers/C15.lean"]
 TIME_LIMIT = {"quick": 900, "thorough": 3000}
 CASE_CPU_LIMIT = 60
@@ -29,13 +29,18 @@ RULE = ("programs: 1-3 threads x 1-2 simulated processes, each thread 1-3 nested
         "(shared, blocking, reentrant) on 1-2 paths, api in {thread_level_lock, path_lock}; schedule = seeded sequence of "
         "choices among enabled threads at primitive granularity (RLock/Condition/lockf/body points). thorough adds ALL "
         "schedules of the small programs (2-3 threads x 1 request, 2 threads x 2 requests bounded). non-trivial = at least "
-        "two threads touch the same path and at least one request is exclusive; distinct = distinct (program, schedule)")
+        "two threads touch the same path and at least one request is exclusive; distinct = distinct (program, schedule). "
+        "In half of the path_lock programs every request spells its path in one of 4 ways that designate the same file "
+        "(d/f, d/./f, d//f, d/sub/../f); kind 'norm' = 24 random path strings over components {'', '.', '..', names} with 0-3 "
+        "leading slashes (K of the Lean normpath against os.path.normpath)")
 TRUSTED = [
     "Lean 4.33 kernel; axioms propext, Quot.sound, Classical.choice only (audited per theorem each run)",
     "hand-written model PharmpyModel/C15/Thread.lean, tied to lock.py by lock-step replay of the real code's transitions",
     "semantics of threading.RLock/Condition (wait releases all recursion levels and needs notify + the lock to return) as "
     "implemented by the instrumented primitives in harness/corr/c15_sched.py",
     "POSIX record locks: per (process, file); closing any descriptor of the file drops the process's locks (simulated kernel)",
+    "simulated file system: a name designates the file found by walking its components (d/f, d//f, d/./f, d/sub/../f are one "
+    "file), no symbolic links; real fcntl + real name resolution only in the `real` cases (c15_real.py)",
     "regions protected by one mutex are atomic; regions on different mutexes commute (pool mutexes are not scheduling points)",
 ]
 ASSUMPTIONS = [
@@ -63,6 +68,26 @@ def gen_req(rng, npaths, depth, counter):
             "re": rng.random() < 0.6, "kids": kids}
 
 
+# spellings of one path (all designate the same file; os.path.normpath maps each to the first)
+SPELLINGS = ["/locks/p{n}", "/locks/./p{n}", "/locks//p{n}", "/locks/sub/../p{n}"]
+
+
+def spell(req, api="path"):
+    return SPELLINGS[req.get("sp", 0) if api == "path" else 0].format(n=req["path"])
+
+
+_COMPS = ["", ".", "..", "a", "b", "sub", "lock", "..a", "a.", "...", "p0"]
+
+
+def gen_norm(rng):
+    paths = []
+    for _ in range(24):
+        n = rng.randint(0, 6)
+        body = "/".join(rng.choice(_COMPS) for _ in range(n))
+        paths.append("/" * rng.choice([0, 0, 1, 1, 1, 2, 3]) + body)
+    return {"kind": "norm", "paths": paths, "seed": rng.randrange(1 << 30)}
+
+
 def count_reqs(reqs):
     return sum(1 + count_reqs(r["kids"]) for r in reqs)
 
@@ -70,6 +95,9 @@ def count_reqs(reqs):
 def gen_cases(rng: random.Random, n: int, tier: str):
     out = []
     for _ in range(n):
+        if rng.random() < 0.04:
+            out.append(gen_norm(rng))
+            continue
         api = "thread" if rng.random() < 0.5 else "path"
         nprocs = 1 if api == "thread" or rng.random() < 0.4 else 2
         npaths = 1 if rng.random() < 0.75 else 2
@@ -84,15 +112,39 @@ def gen_cases(rng: random.Random, n: int, tier: str):
                 if count_reqs(prog) >= 3:
                     break
             threads.append({"proc": rng.randrange(nprocs), "prog": prog})
+        if api == "path" and rng.random() < 0.5:
+            # several spellings of the same file within one program
+            for t in threads:
+                for r in _flat(t["prog"]):
+                    r["sp"] = rng.randrange(len(SPELLINGS))
         out.append({"kind": "run", "api": api, "nprocs": nprocs, "threads": threads,
                     "schedule": [rng.randrange(6) for _ in range(rng.randint(0, 60))], "seed": rng.randrange(1 << 30)})
     if tier == "thorough":
-        out += [dict(c, limit=6000) for c in exhaustive_programs()]
+        out += [dict(c, limit=6000) for c in exhaustive_programs() + alias_programs()]
     return out
 
 
-def R(i, sh, bl=True, re=True, kids=(), path=0):
-    return {"id": i, "path": path, "sh": sh, "bl": bl, "re": re, "kids": list(kids)}
+def R(i, sh, bl=True, re=True, kids=(), path=0, sp=0):
+    r = {"id": i, "path": path, "sh": sh, "bl": bl, "re": re, "kids": list(kids)}
+    if sp:
+        r["sp"] = sp
+    return r
+
+
+def alias_programs():
+    """One file locked under two spellings inside one process (two threads, or nested reentrantly in one thread),
+    with and without a second process asking for a conflicting lock."""
+    out = []
+    for sp in (1, 2, 3):
+        for a_sh, b_sh in ((True, True), (True, False), (False, True)):
+            two = [{"proc": 0, "prog": [R(1, a_sh)]}, {"proc": 0, "prog": [R(2, b_sh, sp=sp)]}]
+            out.append({"kind": "all", "api": "path", "nprocs": 1, "threads": two, "seed": 0})
+            out.append({"kind": "all", "api": "path", "nprocs": 2, "limit": 300,
+                        "threads": two + [{"proc": 1, "prog": [R(3, not (a_sh and b_sh), bl=False)]}], "seed": 0})
+        out.append({"kind": "all", "api": "path", "nprocs": 2,
+                    "threads": [{"proc": 0, "prog": [R(1, True, kids=[R(2, True, sp=sp)]), R(3, True)]},
+                                {"proc": 1, "prog": [R(4, False, bl=False)]}], "seed": 0})
+    return out
 
 
 def exhaustive_programs():
@@ -130,7 +182,21 @@ def corpus_cases():
              "threads": [{"proc": 0, "prog": [R(1, False)]}, {"proc": 1, "prog": [R(2, True)]}], "seed": 0},
             {"kind": "all", "api": "thread", "nprocs": 1,
              "threads": [{"proc": 0, "prog": [R(1, True, re=False, kids=[R(2, True, re=False)])]},
-                         {"proc": 0, "prog": [R(3, False, bl=False)]}], "seed": 0}] + _real_corpus()
+                         {"proc": 0, "prog": [R(3, False, bl=False)]}], "seed": 0}] + _alias_corpus() + _real_corpus()
+
+
+def _alias_corpus():
+    """Two spellings of one file in one process: all schedules of the small programs, plus seeded random schedules of
+    the reader/reader/foreign-writer program (the overlap of the two bodies is reached by most of them)."""
+    out = alias_programs()
+    for seed in range(1, 9):
+        out.append({"kind": "run", "api": "path", "nprocs": 2, "schedule": [], "seed": seed,
+                    "threads": [{"proc": 0, "prog": [R(1, True)]}, {"proc": 0, "prog": [R(2, True, sp=1 + seed % 3)]},
+                                {"proc": 1, "prog": [R(3, False, bl=False), R(4, False, bl=False)]}]})
+    out.append({"kind": "norm", "seed": 0,
+                "paths": ["", ".", "/", "//", "///", "//a", "///a/", "a/..", "a/../..", "/..", "/../a", "a//b/./c/../d/",
+                          "/locks/p0", "/locks/./p0", "/locks//p0", "/locks/sub/../p0", "..", "../..", "./", "a/./"]})
+    return out
 
 
 def _real_corpus():
@@ -139,7 +205,7 @@ def _real_corpus():
 
 
 def shrink(case):
-    if case.get("kind") == "real":
+    if case.get("kind") in ("real", "norm"):
         return
     th = case["threads"]
     if len(th) > 2:
@@ -204,11 +270,13 @@ class Exec:
 
         def run_req(req):
             vt.phase = ("enter", req)
+            outer_path = vt.cur_path
+            vt.cur_path = spell(req, self.api)
             try:
                 if self.api == "thread":
-                    cm = ns["thread_level_lock"](f"/locks/p{req['path']}", req["sh"], req["bl"], req["re"])
+                    cm = ns["thread_level_lock"](vt.cur_path, req["sh"], req["bl"], req["re"])
                 else:
-                    cm = ns["path_lock"](f"/locks/p{req['path']}", req["sh"], req["bl"], req["re"])
+                    cm = ns["path_lock"](vt.cur_path, req["sh"], req["bl"], req["re"])
                 with cm:
                     vt.in_body.append(req)
                     vt.phase = ("body", req)
@@ -216,6 +284,7 @@ class Exec:
                     for kreq in req["kids"]:
                         run_req(kreq)
                     vt.phase = ("exit", req)
+                    vt.cur_path = spell(req, self.api)
                     rt.point(vt, ("body-exit", req["id"]), lambda: True)
                     vt.in_body.pop()
                 vt.phase = ("after", req)
@@ -226,6 +295,8 @@ class Exec:
             except rec:
                 vt.phase = ("after", req)
                 vt.log.append((req["id"], "RecursiveDeadlockError"))
+            finally:
+                vt.cur_path = outer_path
 
         for r in vt.program:
             run_req(r)
@@ -261,7 +332,14 @@ class Exec:
     def replay_pool(self, vt, ev):
         """Keyed reference pools: replay enter/exit on the Lean pool model, compare entries and refcounts
         (objects are identified by creation order within the pool)."""
-        kind, name, key, obj = ev
+        kind, name, key, obj, spelled = ev
+        if self.api == "path" and kind == "pool-enter" and name in ("thread", "fd") and spelled is not None:
+            # K: the key path_lock enters this registry with, for the path as spelled by the caller
+            ka = self.drv.ask(["keys", spelled])
+            mkey = ka[1 if name == "thread" else 2] if ka[0] == "ok" else ka
+            self.tags.add("keys:" + name)
+            if mkey != key:
+                self.k.append(f"path_lock({spelled!r}): key of the {name} registry: model {mkey!r} real {key!r}")
         pool_id = vt.proc * 3 + {"thread": 0, "proc": 1, "fd": 2}[name]
         keys = self.pool_keys.setdefault(pool_id, {})
         kid = keys.setdefault(key, len(keys))
@@ -352,6 +430,16 @@ class Exec:
                 for vt, req in hs:
                     held = rt.kernel.table.get(f"/locks/p{path}", {}).get(vt.proc)
                     if held is None or (not req["sh"] and held != "ex"):
+                        others = {r.get("sp", 0) for o in rt.threads if o.proc == vt.proc
+                                  for r in _flat(o.program) if r["path"] == path} - {req.get("sp", 0)}
+                        nfd = sorted(n for (p, n), f in rt.kernel.fds.items() if p == vt.proc and f == f"/locks/p{path}")
+                        if others:
+                            self.fail("foreign-release-path-alias",
+                                      f"thread {vt.tid} (process {vt.proc}) is in a {'shared' if req['sh'] else 'exclusive'} body "
+                                      f"of path_lock({spell(req)!r}) but its process holds {held!r} in the kernel lock table; "
+                                      f"other requests of the process lock the same file as "
+                                      f"{sorted(SPELLINGS[x].format(n=path) for x in others)}; descriptors of the file "
+                                      f"open in the process: {[(n, rt.kernel.opened_as.get((vt.proc, n))) for n in nfd]}")
                         self.fail("foreign-release", f"thread {vt.tid} is in a {'shared' if req['sh'] else 'exclusive'} body on path "
                                   f"{path} but its process holds {held!r} in the kernel lock table")
         # a shared request of one process must not be kept waiting by a process that has no exclusive
@@ -602,7 +690,7 @@ class Exec:
         for ev in evs:
             if ev[0].startswith("pool-"):
                 continue
-            kind, key, shared = ev
+            kind, key, shared = ev[:3]
             if kind != "tl-exit" or shared:
                 continue
             stack = self.ex_stack.get(vt.tid, [])
@@ -632,11 +720,34 @@ def run_schedule(case, drv, prefix, rng):
     return ex, steps
 
 
+def run_norm(case, drv):
+    """K: Lean `normpath` (PharmpyModel/C15/Path.lean) against os.path.normpath, which path_lock derives its keys from."""
+    import posixpath
+    k, tags = [], {"kind:norm"}
+    for p in case["paths"]:
+        real = posixpath.normpath(p)
+        tags.add("norm:" + ("changed" if real != p else "fixpoint"))
+        tags.add(f"norm-slashes:{min(len(p) - len(p.lstrip('/')), 3)}")
+        if posixpath.normpath(real) != real:
+            k.append(f"os.path.normpath is not idempotent on {p!r}")
+        if drv is not None:
+            a = drv.ask(["normpath", p])
+            if a[0] != "ok" or a[1] != real:
+                k.append(f"normpath({p!r}): model {a!r} real {real!r}")
+    return {"k": k[:5], "mon": [], "tags": sorted(tags), "nontrivial": any(posixpath.normpath(p) != p for p in case["paths"])}
+
+
 def run_case(case, drv):
     if case.get("kind") == "real":
         from harness.corr.c15_real import run_real
         return run_real(case, drv)
+    if case.get("kind") == "norm":
+        return run_norm(case, drv)
     tags = {f"api:{case['api']}", f"procs:{case['nprocs']}", f"threads:{len(case['threads'])}", f"kind:{case['kind']}"}
+    if case["api"] == "path":
+        nsp = max((len({r.get("sp", 0) for t in case["threads"] for r in _flat(t["prog"]) if r["path"] == pth})
+                   for pth in {r["path"] for t in case["threads"] for r in _flat(t["prog"])}), default=1)
+        tags.add(f"spellings-of-one-file:{nsp}")
     k, mon = [], []
     reqs = [r for t in case["threads"] for r in _flat(t["prog"])]
     paths = {}
